@@ -628,6 +628,22 @@ def _multiindex(chk):
                 for stt in walk_no_nested(inv.node)) or any(p.has_op("method", "assign_coords") for r in rets for p in invf.paths(r.value, spine_only=True))
     chk.check(restored and wrote, "MIRROR.state.multiindex.restore", inv, rets[0] if rets else inv.node, construct="inverse re-attaches the labels and rebuilds the MultiIndex (set_index)",
               why="the inverse map no longer " + ("rebuilds the MultiIndex from the restored labels" if wrote else "re-attaches the remembered labels") + ": results come back with a flat / positional index")
+    # the levels the MultiIndex is rebuilt from are the remembered INDEX's own levels (`.indexes` / `to_index().names`), not
+    # whatever coordinates lie along the dimension: an auxiliary coordinate (season(time)) taken as a level becomes an
+    # extra dimension when the results are unstacked
+    for c in calls_in(inv):
+        if not (isinstance(c.func, ast.Attribute) and c.func.attr == "set_index"):
+            continue
+        lv = [v for a in c.args if isinstance(a, ast.Dict) for v in a.values] + [k.value for k in c.keywords if k.arg not in ("append",)]
+        for v in lv:
+            ps = invf.paths(v, spine_only=False)
+            from_index = any(p.has_op("attr", "indexes") or p.has_op("attr", "xindexes") or p.has_op("method", "to_index") or p.has_op("method", "get_index") or p.has_op("attr", "names") for p in ps)
+            from_coords = any((p.has_op("attr", "coords") or p.has_op("attr", "variables") or p.has_op("attr", "dims")) and not
+                              (p.has_op("attr", "indexes") or p.has_op("attr", "xindexes") or p.has_op("method", "to_index") or p.has_op("attr", "names")) for p in ps
+                              if p.atom.kind != "const" and not (p.atom.kind in ("loopvar", "name") and not p.ops))
+            chk.check(from_index and not from_coords, "MIRROR.state.multiindex.restore.levels", inv, c, construct="MultiIndex rebuilt from the levels of the remembered index",
+                      why="the levels handed to set_index are read from the coordinates lying along the dimension, not from the remembered index: an auxiliary "
+                          "coordinate along a stacked or MultiIndex dimension becomes a level, and scores / components / reconstructions unstack into an extra dimension")
     # the labels also survive the serialisation round trip that compute() / load() perform (shared with C13)
     from . import c13 as _c13
     _c13._mi_levels(chk, rule="MIRROR.state.multiindex.levels")
